@@ -50,6 +50,11 @@ def run(ctx: Ctx) -> None:
     rust_tick(ctx, rs)
     isr_bits(ctx, py, rs)
     tick_sites(ctx, py, rs)
+    from ..snaprules import timer_restore_findings
+    found, nn = timer_restore_findings(py)
+    for key, what, ln in found:
+        ctx.violation("C13.5/restore-targets", key, what, f"{EMU}:{ln}")
+    ctx.instance("C13.5/restore-targets", "load_snapshot puts the saved next-fire targets back unconditionally and unchanged", nn, 2)
 
 
 # ---------------------------------------------------------------------------
